@@ -87,6 +87,7 @@ type executor struct {
 	ops     int // persistence calls in this step
 	crashAt int // 0 = never
 	crashed bool
+	frozen  *frozen
 	quiet   bool
 	events  []Ev
 	draws   uint64
@@ -232,13 +233,51 @@ func (x *executor) persOp() (fail bool) {
 	return fail
 }
 
-// afterOp stops the process's work if this was the last persistence call
-// before the crash point.
+// afterOp freezes the store if this was the last persistence call before the
+// crash point: the process "stops" here. What the rest of the step does is the
+// work of a process that no longer exists: the step's executor discards it
+// (store restored from the frozen copy, later events dropped, memory lost).
 func (x *executor) afterOp() {
-	if !x.quiet && x.crashAt > 0 && x.ops == x.crashAt {
-		x.crashed = true
-		panic(crashSentinel{})
+	if !x.quiet && !x.crashed && x.crashAt > 0 && x.ops == x.crashAt {
+		x.freeze()
 	}
+}
+
+type frozen struct {
+	data   map[string][]byte
+	store  []StoreEnt
+	graves []Grave
+	events int
+	ids    int
+}
+
+func (x *executor) freeze() {
+	x.crashed = true
+	f := &frozen{data: map[string][]byte{}, events: len(x.events), ids: len(x.st.IDs)}
+	for k, v := range x.data {
+		f.data[k] = v
+	}
+	f.store = append(f.store, x.st.Store...)
+	for _, g := range x.st.Graves {
+		g2 := g
+		if g.User != nil {
+			u := *g.User
+			g2.User = &u
+		}
+		f.graves = append(f.graves, g2)
+	}
+	x.frozen = f
+}
+
+func (x *executor) thaw() {
+	f := x.frozen
+	x.data = f.data
+	x.st.Store = f.store
+	x.st.Graves = f.graves
+	x.events = x.events[:f.events]
+	x.st.IDs = x.st.IDs[:f.ids]
+	x.draws = uint64(f.ids)
+	x.frozen = nil
 }
 
 func (x *executor) decode(b []byte) (*sessions.Session, error) {
@@ -342,6 +381,9 @@ func saveOrigin() string {
 		f, more := frames.Next()
 		if strings.HasSuffix(f.Function, "(*cache).compact") {
 			return "compact"
+		}
+		if strings.HasSuffix(f.Function, "(*cache).Set") {
+			return "cacheset"
 		}
 		if strings.HasSuffix(f.Function, "sessions.PurgeSessions") {
 			return "purge"
@@ -609,13 +651,14 @@ func (x *executor) beginStep(h *Hop) {
 	x.ops = 0
 	x.crashAt = 0
 	x.crashed = false
+	x.events = nil
+	x.frozen = nil
 	if h.Crash != nil {
 		x.crashAt = *h.Crash
 		if x.crashAt == 0 {
-			x.crashAt = -1 // stop before the first persistence call: handled by the caller
+			x.freeze() // the process stops before the first persistence call
 		}
 	}
-	x.events = nil
 }
 
 func (x *executor) fillTB(h *Hop) {
@@ -674,19 +717,16 @@ func (x *executor) doStep(h *Hop) (o Obs, stop bool, halt string) {
 		}
 		w := httptest.NewRecorder()
 		var sess *sessions.Session
-		crashedEarly := x.crashAt == -1
 		var res SRes
 		var crashed bool
-		if !crashedEarly {
-			res, crashed = x.call(func() error {
-				var err error
-				sess, err = sessions.Start(w, req, h.Create)
-				return err
-			})
-			synctest.Wait()
-		}
+		res, crashed = x.call(func() error {
+			var err error
+			sess, err = sessions.Start(w, req, h.Create)
+			return err
+		})
+		synctest.Wait()
 		switch {
-		case crashedEarly || crashed:
+		case crashed:
 		case res.Kind == "err":
 			o.Res, o.Site, o.Text = "err", res.Site, res.Text
 		case res.Kind == "panic":
@@ -754,12 +794,17 @@ func (x *executor) doStep(h *Hop) (o Obs, stop bool, halt string) {
 			}
 		}
 		if h.Crash != nil {
-			// the process stops here: nothing was sent, memory is lost
-			o = Obs{Res: "crashed", Jar: jar}
+			// the process stopped at the crash point (or here, if the step made
+			// fewer persistence calls): nothing was sent, memory is lost
+			if x.frozen == nil {
+				x.freeze()
+			}
 			x.fillTB(h)
+			x.thaw()
+			o = Obs{Res: "crashed", Jar: jar}
 			sessions.VerifDropCache()
 			x.snapshot(&o)
-			return o, true, halt
+			return o, true, ""
 		}
 		o.Cookies = x.cookiesOf(w.Header())
 		if h.Present == nil {
